@@ -1236,6 +1236,12 @@ class Discharger:
                     t = [s2 for lab, s2 in c.succ if lab == "T"]
                     if t and any(t[0] is s_ for s_ in stores):
                         good = True
+            # ... or the statement right after the re-binding is `D.setdefault(k, ...)`: the key is there afterwards
+            nxt = [s2 for lab, s2 in a_.succ if lab != "exc"]
+            if len(nxt) == 1 and nxt[0].kind == "stmt" and isinstance(nxt[0].ast, ast.Expr) and isinstance(nxt[0].ast.value, ast.Call):
+                c2 = nxt[0].ast.value
+                if isinstance(c2.func, ast.Attribute) and c2.func.attr == "setdefault" and src(c2.func.value) == d and c2.args and src(c2.args[0]) in (k, src(a_.ast.value)):
+                    good = True
             if not good:
                 return None
         return f"`{k}` is a key of `{d}` from the start and whenever it is re-bound a membership test stores the new value first"
